@@ -194,6 +194,25 @@ Definition v3_selected (known : list Z) (s : wsel) : bool := negb (is_nil (v3_se
 Definition v3_weight_req (known : list Z) (s : wsel) (have_w have_wc : bool) (w wc : Ext) : Ext :=
   v3_weight_gen (v3_selected known s) have_w have_wc w wc.
 
+(* ------------------------------------------------------------------ HDF5 v3: second-stage index *)
+(* d.weights[kt, kf, kb]: katdal's lazy indexers apply the index PER AXIS (outer indexing); every per-axis index
+   (slice, integer, list, mask) is the list of positions it keeps.  The transform of H5DataV3.weights gets the
+   low-resolution block extracted that way and asks the 2-d indexer of weights_channel for the same index
+   (`weights_channel[keep]`: the dump and channel parts, per axis again), then multiplies with broadcasting over
+   the corrprod axis. *)
+Definition outer3 {A} (d : A) (a : arr3 A) (kt kf kb : list nat) : arr3 A :=
+  map (fun t => map (fun f => map (fun b => get3 a d t f b) kb) kf) kt.
+Definition outer2 {A} (d : A) (a : list (list A)) (kt kf : list nat) : list (list A) :=
+  map (fun t => map (fun f => nth f (nth t a []) d) kf) kt.
+Definition v3_weights_indexed (sel hw hwc : bool) (w : arr3 Ext) (wc : list (list Ext)) (kt kf kb : list nat) : arr3 Ext :=
+  map2 (map2 (fun cell c => map (fun x => v3_weight_gen sel hw hwc x c) cell)) (outer3 NaN w kt kf kb) (outer2 NaN wc kt kf).
+
+(* NOT what katdal does - numpy's vectorised rule on a preloaded weights_channel when both kt and kf are integer
+   lists / masks: ONE value per index PAIR (kt[j], kf[j]), broadcast as a column over the dump axis of the block *)
+Definition v3_weights_vectorised (sel hw hwc : bool) (w : arr3 Ext) (wc : list (list Ext)) (kt kf kb : list nat) : arr3 Ext :=
+  let pairs := map2 (fun t f => nth f (nth t wc []) NaN) kt kf in
+  map (fun row => map2 (fun cell c => map (fun x => v3_weight_gen sel hw hwc x c) cell) row pairs) (outer3 NaN w kt kf kb).
+
 (* ------------------------------------------------------------------ wire *)
 Definition of_ndtype (d : ndtype) : sx := match d with UInt b => I b | KeepDtype => I 0 end.
 Definition of_narrowed (n : narrowed) : sx := L [of_ndtype (fst n); of_Zs (snd n)].
@@ -308,5 +327,14 @@ Definition wire_159 (x : sx) : sx :=
          L (map (fun c => match c with
                           | L [w; wc] => of_Ext (v3_weight_req known s (to_bool hw) (to_bool hwc) (to_Ext w) (to_Ext wc))
                           | _ => sx_err end) (to_list cells))]
+  | _ => sx_err
+  end.
+
+(* v3 weights under a second-stage index: (sel have_w have_wc w wc kt kf kb) -> model array *)
+Definition wire_1511 (x : sx) : sx :=
+  match x with
+  | L [sel; hw; hwc; w; wc; kt; kf; kb] =>
+      of_arr3 of_Ext (v3_weights_indexed (to_bool sel) (to_bool hw) (to_bool hwc) (to_arr3 to_Ext w) (to_arr2 to_Ext wc)
+                                         (to_nats kt) (to_nats kf) (to_nats kb))
   | _ => sx_err
   end.
